@@ -1,0 +1,531 @@
+//! Verification seams (compiled only with `--cfg zipora_verif`).
+//!
+//! This module contains no simulator.  It is a table of hooks, empty by default, plus
+//! drop-in replacements for the std synchronisation types a few modules import.  Each
+//! replacement forwards to the std type after telling the installed hook that a
+//! synchronisation operation is about to happen, so that an external deterministic
+//! scheduler can decide which thread runs next.  Without an installed hook (and in every
+//! build without the cfg flag) behaviour is exactly std's.
+
+use std::panic::Location;
+use std::sync::OnceLock;
+
+/// Kind of operation announced at a scheduling point.
+#[derive(Clone, Copy, Debug, PartialEq, Eq)]
+#[repr(u8)]
+pub enum Op {
+    Load = 0,
+    Store = 1,
+    Rmw = 2,
+    Cas = 3,
+    Lock = 4,
+    TryLock = 5,
+    Read = 6,
+    Write = 7,
+    Other = 8,
+}
+
+/// Lifetime events of heap objects that are reachable through raw pointers.
+#[derive(Clone, Copy, Debug, PartialEq, Eq)]
+#[repr(u8)]
+pub enum MemEv {
+    Born = 0,
+    Died = 1,
+    Touch = 2,
+}
+
+/// Hook table installed by a verification harness.
+#[derive(Clone, Copy)]
+pub struct Hooks {
+    /// A shimmed synchronisation operation on the object at `addr` is about to run.
+    pub point: fn(loc: &'static Location<'static>, op: Op, addr: usize),
+    /// The calling thread could not take a lock and must let another thread run.
+    pub blocked: fn(addr: usize),
+    /// Heap object lifetime probe.
+    pub mem: fn(ev: MemEv, addr: usize, tag: &'static str),
+    /// Number of extra cooperative yields to insert at an async site.
+    pub async_yields: fn(site: &'static str) -> u32,
+    /// Monotone skew (nanoseconds) added to the shimmed clock.
+    pub now_skew_ns: fn() -> u64,
+    /// Should the named fault fire now?
+    pub fault: fn(site: &'static str) -> bool,
+}
+
+static HOOKS: OnceLock<Hooks> = OnceLock::new();
+
+/// Install the hook table (first caller wins).
+pub fn install(h: Hooks) -> bool {
+    HOOKS.set(h).is_ok()
+}
+
+#[inline]
+pub fn point(loc: &'static Location<'static>, op: Op, addr: usize) {
+    if let Some(h) = HOOKS.get() {
+        (h.point)(loc, op, addr)
+    }
+}
+
+#[inline]
+#[track_caller]
+pub fn point_here(op: Op, addr: usize) {
+    point(Location::caller(), op, addr)
+}
+
+#[inline]
+pub fn blocked(addr: usize) -> bool {
+    if let Some(h) = HOOKS.get() {
+        (h.blocked)(addr);
+        true
+    } else {
+        false
+    }
+}
+
+#[inline]
+pub fn fault(site: &'static str) -> bool {
+    match HOOKS.get() {
+        Some(h) => (h.fault)(site),
+        None => false,
+    }
+}
+
+#[inline]
+pub fn now_skew_ns() -> u64 {
+    match HOOKS.get() {
+        Some(h) => (h.now_skew_ns)(),
+        None => 0,
+    }
+}
+
+/// Seeded number of cooperative yields at an async site.
+pub async fn async_point(site: &'static str) {
+    let n = match HOOKS.get() {
+        Some(h) => (h.async_yields)(site),
+        None => 0,
+    };
+    for _ in 0..n {
+        tokio::task::yield_now().await;
+    }
+}
+
+pub mod mem {
+    use super::{HOOKS, MemEv};
+    #[inline]
+    pub fn born(addr: usize, tag: &'static str) {
+        if let Some(h) = HOOKS.get() {
+            (h.mem)(MemEv::Born, addr, tag)
+        }
+    }
+    #[inline]
+    pub fn died(addr: usize, tag: &'static str) {
+        if let Some(h) = HOOKS.get() {
+            (h.mem)(MemEv::Died, addr, tag)
+        }
+    }
+    #[inline]
+    pub fn touch(addr: usize, tag: &'static str) {
+        if let Some(h) = HOOKS.get() {
+            (h.mem)(MemEv::Touch, addr, tag)
+        }
+    }
+}
+
+pub mod sync {
+    use super::{Op, point};
+    use std::panic::Location;
+    use std::sync::{LockResult, PoisonError, TryLockError, TryLockResult};
+    use std::sync::{MutexGuard, RwLockReadGuard, RwLockWriteGuard};
+
+    /// `std::sync::Mutex` with a scheduling point before every acquisition.  Returns
+    /// std's guard, so code using the guard is unchanged.
+    #[derive(Debug, Default)]
+    pub struct Mutex<T: ?Sized>(std::sync::Mutex<T>);
+
+    impl<T> Mutex<T> {
+        pub const fn new(t: T) -> Self {
+            Mutex(std::sync::Mutex::new(t))
+        }
+        pub fn into_inner(self) -> LockResult<T> {
+            self.0.into_inner()
+        }
+    }
+
+    impl<T: ?Sized> Mutex<T> {
+        #[track_caller]
+        pub fn lock(&self) -> LockResult<MutexGuard<'_, T>> {
+            let loc = Location::caller();
+            let addr = self as *const _ as *const u8 as usize;
+            loop {
+                point(loc, Op::Lock, addr);
+                match self.0.try_lock() {
+                    Ok(g) => return Ok(g),
+                    Err(TryLockError::Poisoned(p)) => return Err(PoisonError::new(p.into_inner())),
+                    Err(TryLockError::WouldBlock) => {
+                        if !super::blocked(addr) {
+                            return self.0.lock();
+                        }
+                    }
+                }
+            }
+        }
+        #[track_caller]
+        pub fn try_lock(&self) -> TryLockResult<MutexGuard<'_, T>> {
+            point(Location::caller(), Op::TryLock, self as *const _ as *const u8 as usize);
+            self.0.try_lock()
+        }
+        pub fn is_poisoned(&self) -> bool {
+            self.0.is_poisoned()
+        }
+        pub fn get_mut(&mut self) -> LockResult<&mut T> {
+            self.0.get_mut()
+        }
+    }
+
+    /// `std::sync::RwLock` with a scheduling point before every acquisition.
+    #[derive(Debug, Default)]
+    pub struct RwLock<T: ?Sized>(std::sync::RwLock<T>);
+
+    impl<T> RwLock<T> {
+        pub const fn new(t: T) -> Self {
+            RwLock(std::sync::RwLock::new(t))
+        }
+        pub fn into_inner(self) -> LockResult<T> {
+            self.0.into_inner()
+        }
+    }
+
+    impl<T: ?Sized> RwLock<T> {
+        #[track_caller]
+        pub fn read(&self) -> LockResult<RwLockReadGuard<'_, T>> {
+            let loc = Location::caller();
+            let addr = self as *const _ as *const u8 as usize;
+            loop {
+                point(loc, Op::Read, addr);
+                match self.0.try_read() {
+                    Ok(g) => return Ok(g),
+                    Err(TryLockError::Poisoned(p)) => return Err(PoisonError::new(p.into_inner())),
+                    Err(TryLockError::WouldBlock) => {
+                        if !super::blocked(addr) {
+                            return self.0.read();
+                        }
+                    }
+                }
+            }
+        }
+        #[track_caller]
+        pub fn write(&self) -> LockResult<RwLockWriteGuard<'_, T>> {
+            let loc = Location::caller();
+            let addr = self as *const _ as *const u8 as usize;
+            loop {
+                point(loc, Op::Write, addr);
+                match self.0.try_write() {
+                    Ok(g) => return Ok(g),
+                    Err(TryLockError::Poisoned(p)) => return Err(PoisonError::new(p.into_inner())),
+                    Err(TryLockError::WouldBlock) => {
+                        if !super::blocked(addr) {
+                            return self.0.write();
+                        }
+                    }
+                }
+            }
+        }
+        #[track_caller]
+        pub fn try_read(&self) -> TryLockResult<RwLockReadGuard<'_, T>> {
+            point(Location::caller(), Op::TryLock, self as *const _ as *const u8 as usize);
+            self.0.try_read()
+        }
+        #[track_caller]
+        pub fn try_write(&self) -> TryLockResult<RwLockWriteGuard<'_, T>> {
+            point(Location::caller(), Op::TryLock, self as *const _ as *const u8 as usize);
+            self.0.try_write()
+        }
+        pub fn get_mut(&mut self) -> LockResult<&mut T> {
+            self.0.get_mut()
+        }
+    }
+
+    pub mod atomic {
+        use super::super::{Op, point};
+        use std::panic::Location;
+        use std::sync::atomic::Ordering;
+
+        macro_rules! shim_int {
+            ($name:ident, $std:ty, $int:ty) => {
+                #[derive(Debug, Default)]
+                #[repr(transparent)]
+                pub struct $name($std);
+
+                impl $name {
+                    pub const fn new(v: $int) -> Self {
+                        $name(<$std>::new(v))
+                    }
+                    #[inline]
+                    fn addr(&self) -> usize {
+                        self as *const _ as usize
+                    }
+                    pub fn into_inner(self) -> $int {
+                        self.0.into_inner()
+                    }
+                    pub fn get_mut(&mut self) -> &mut $int {
+                        self.0.get_mut()
+                    }
+                    pub fn as_ptr(&self) -> *mut $int {
+                        self.0.as_ptr()
+                    }
+                    #[track_caller]
+                    pub fn load(&self, o: Ordering) -> $int {
+                        point(Location::caller(), Op::Load, self.addr());
+                        self.0.load(o)
+                    }
+                    #[track_caller]
+                    pub fn store(&self, v: $int, o: Ordering) {
+                        point(Location::caller(), Op::Store, self.addr());
+                        self.0.store(v, o)
+                    }
+                    #[track_caller]
+                    pub fn swap(&self, v: $int, o: Ordering) -> $int {
+                        point(Location::caller(), Op::Rmw, self.addr());
+                        self.0.swap(v, o)
+                    }
+                    #[track_caller]
+                    pub fn compare_exchange(&self, c: $int, n: $int, s: Ordering, f: Ordering) -> Result<$int, $int> {
+                        point(Location::caller(), Op::Cas, self.addr());
+                        self.0.compare_exchange(c, n, s, f)
+                    }
+                    /// Under the shim the weak form never fails spuriously (deterministic replay).
+                    #[track_caller]
+                    pub fn compare_exchange_weak(&self, c: $int, n: $int, s: Ordering, f: Ordering) -> Result<$int, $int> {
+                        point(Location::caller(), Op::Cas, self.addr());
+                        self.0.compare_exchange(c, n, s, f)
+                    }
+                    #[track_caller]
+                    pub fn fetch_add(&self, v: $int, o: Ordering) -> $int {
+                        point(Location::caller(), Op::Rmw, self.addr());
+                        self.0.fetch_add(v, o)
+                    }
+                    #[track_caller]
+                    pub fn fetch_sub(&self, v: $int, o: Ordering) -> $int {
+                        point(Location::caller(), Op::Rmw, self.addr());
+                        self.0.fetch_sub(v, o)
+                    }
+                    #[track_caller]
+                    pub fn fetch_and(&self, v: $int, o: Ordering) -> $int {
+                        point(Location::caller(), Op::Rmw, self.addr());
+                        self.0.fetch_and(v, o)
+                    }
+                    #[track_caller]
+                    pub fn fetch_or(&self, v: $int, o: Ordering) -> $int {
+                        point(Location::caller(), Op::Rmw, self.addr());
+                        self.0.fetch_or(v, o)
+                    }
+                    #[track_caller]
+                    pub fn fetch_xor(&self, v: $int, o: Ordering) -> $int {
+                        point(Location::caller(), Op::Rmw, self.addr());
+                        self.0.fetch_xor(v, o)
+                    }
+                    #[track_caller]
+                    pub fn fetch_max(&self, v: $int, o: Ordering) -> $int {
+                        point(Location::caller(), Op::Rmw, self.addr());
+                        self.0.fetch_max(v, o)
+                    }
+                    #[track_caller]
+                    pub fn fetch_min(&self, v: $int, o: Ordering) -> $int {
+                        point(Location::caller(), Op::Rmw, self.addr());
+                        self.0.fetch_min(v, o)
+                    }
+                    /// Load, then CAS in a loop, each a separate scheduling point (as in std).
+                    #[track_caller]
+                    pub fn fetch_update<F: FnMut($int) -> Option<$int>>(&self, s: Ordering, f: Ordering, mut g: F) -> Result<$int, $int> {
+                        let loc = Location::caller();
+                        point(loc, Op::Load, self.addr());
+                        let mut prev = self.0.load(f);
+                        while let Some(next) = g(prev) {
+                            point(loc, Op::Cas, self.addr());
+                            match self.0.compare_exchange(prev, next, s, f) {
+                                Ok(x) => return Ok(x),
+                                Err(p) => prev = p,
+                            }
+                        }
+                        Err(prev)
+                    }
+                }
+
+                impl From<$int> for $name {
+                    fn from(v: $int) -> Self {
+                        Self::new(v)
+                    }
+                }
+            };
+        }
+
+        shim_int!(AtomicU8, std::sync::atomic::AtomicU8, u8);
+        shim_int!(AtomicU32, std::sync::atomic::AtomicU32, u32);
+        shim_int!(AtomicU64, std::sync::atomic::AtomicU64, u64);
+        shim_int!(AtomicUsize, std::sync::atomic::AtomicUsize, usize);
+        shim_int!(AtomicI64, std::sync::atomic::AtomicI64, i64);
+
+        #[derive(Debug, Default)]
+        #[repr(transparent)]
+        pub struct AtomicBool(std::sync::atomic::AtomicBool);
+
+        impl AtomicBool {
+            pub const fn new(v: bool) -> Self {
+                AtomicBool(std::sync::atomic::AtomicBool::new(v))
+            }
+            #[inline]
+            fn addr(&self) -> usize {
+                self as *const _ as usize
+            }
+            pub fn into_inner(self) -> bool {
+                self.0.into_inner()
+            }
+            pub fn get_mut(&mut self) -> &mut bool {
+                self.0.get_mut()
+            }
+            #[track_caller]
+            pub fn load(&self, o: Ordering) -> bool {
+                point(Location::caller(), Op::Load, self.addr());
+                self.0.load(o)
+            }
+            #[track_caller]
+            pub fn store(&self, v: bool, o: Ordering) {
+                point(Location::caller(), Op::Store, self.addr());
+                self.0.store(v, o)
+            }
+            #[track_caller]
+            pub fn swap(&self, v: bool, o: Ordering) -> bool {
+                point(Location::caller(), Op::Rmw, self.addr());
+                self.0.swap(v, o)
+            }
+            #[track_caller]
+            pub fn compare_exchange(&self, c: bool, n: bool, s: Ordering, f: Ordering) -> Result<bool, bool> {
+                point(Location::caller(), Op::Cas, self.addr());
+                self.0.compare_exchange(c, n, s, f)
+            }
+            #[track_caller]
+            pub fn compare_exchange_weak(&self, c: bool, n: bool, s: Ordering, f: Ordering) -> Result<bool, bool> {
+                point(Location::caller(), Op::Cas, self.addr());
+                self.0.compare_exchange(c, n, s, f)
+            }
+            #[track_caller]
+            pub fn fetch_or(&self, v: bool, o: Ordering) -> bool {
+                point(Location::caller(), Op::Rmw, self.addr());
+                self.0.fetch_or(v, o)
+            }
+            #[track_caller]
+            pub fn fetch_and(&self, v: bool, o: Ordering) -> bool {
+                point(Location::caller(), Op::Rmw, self.addr());
+                self.0.fetch_and(v, o)
+            }
+        }
+
+        #[derive(Debug)]
+        #[repr(transparent)]
+        pub struct AtomicPtr<T>(std::sync::atomic::AtomicPtr<T>);
+
+        impl<T> Default for AtomicPtr<T> {
+            fn default() -> Self {
+                Self::new(std::ptr::null_mut())
+            }
+        }
+
+        impl<T> AtomicPtr<T> {
+            pub const fn new(p: *mut T) -> Self {
+                AtomicPtr(std::sync::atomic::AtomicPtr::new(p))
+            }
+            #[inline]
+            fn addr(&self) -> usize {
+                self as *const _ as usize
+            }
+            pub fn into_inner(self) -> *mut T {
+                self.0.into_inner()
+            }
+            pub fn get_mut(&mut self) -> &mut *mut T {
+                self.0.get_mut()
+            }
+            #[track_caller]
+            pub fn load(&self, o: Ordering) -> *mut T {
+                point(Location::caller(), Op::Load, self.addr());
+                self.0.load(o)
+            }
+            #[track_caller]
+            pub fn store(&self, p: *mut T, o: Ordering) {
+                point(Location::caller(), Op::Store, self.addr());
+                self.0.store(p, o)
+            }
+            #[track_caller]
+            pub fn swap(&self, p: *mut T, o: Ordering) -> *mut T {
+                point(Location::caller(), Op::Rmw, self.addr());
+                self.0.swap(p, o)
+            }
+            #[track_caller]
+            pub fn compare_exchange(&self, c: *mut T, n: *mut T, s: Ordering, f: Ordering) -> Result<*mut T, *mut T> {
+                point(Location::caller(), Op::Cas, self.addr());
+                self.0.compare_exchange(c, n, s, f)
+            }
+            #[track_caller]
+            pub fn compare_exchange_weak(&self, c: *mut T, n: *mut T, s: Ordering, f: Ordering) -> Result<*mut T, *mut T> {
+                point(Location::caller(), Op::Cas, self.addr());
+                self.0.compare_exchange(c, n, s, f)
+            }
+        }
+    }
+}
+
+/// Clock seam: tokio's (pausable) clock plus a monotone skew chosen by the harness.
+pub mod time {
+    use std::ops::{Add, AddAssign, Sub};
+    use std::time::Duration;
+
+    #[derive(Clone, Copy, Debug, PartialEq, Eq, PartialOrd, Ord, Hash)]
+    pub struct Instant(tokio::time::Instant);
+
+    impl Instant {
+        pub fn now() -> Instant {
+            let skew = super::now_skew_ns();
+            Instant(tokio::time::Instant::now() + Duration::from_nanos(skew))
+        }
+        pub fn elapsed(&self) -> Duration {
+            Instant::now().0.saturating_duration_since(self.0)
+        }
+        pub fn duration_since(&self, earlier: Instant) -> Duration {
+            self.0.saturating_duration_since(earlier.0)
+        }
+        pub fn saturating_duration_since(&self, earlier: Instant) -> Duration {
+            self.0.saturating_duration_since(earlier.0)
+        }
+        pub fn checked_duration_since(&self, earlier: Instant) -> Option<Duration> {
+            self.0.checked_duration_since(earlier.0)
+        }
+        pub fn checked_add(&self, d: Duration) -> Option<Instant> {
+            self.0.checked_add(d).map(Instant)
+        }
+        pub fn checked_sub(&self, d: Duration) -> Option<Instant> {
+            self.0.checked_sub(d).map(Instant)
+        }
+    }
+
+    impl Add<Duration> for Instant {
+        type Output = Instant;
+        fn add(self, d: Duration) -> Instant {
+            Instant(self.0 + d)
+        }
+    }
+    impl AddAssign<Duration> for Instant {
+        fn add_assign(&mut self, d: Duration) {
+            self.0 += d
+        }
+    }
+    impl Sub<Duration> for Instant {
+        type Output = Instant;
+        fn sub(self, d: Duration) -> Instant {
+            Instant(self.0 - d)
+        }
+    }
+    impl Sub<Instant> for Instant {
+        type Output = Duration;
+        fn sub(self, o: Instant) -> Duration {
+            self.0.saturating_duration_since(o.0)
+        }
+    }
+}
